@@ -82,3 +82,13 @@ def fill(add):
         "Full products JSON-metadata-value table (about 1.1k values of depth <= 2) x entry point x flavour and timestamp table (0 .. 2^128-1) x hostile keys x entry point x flavour, raw metadata table, declared sizes; defaults (time window in Unix ms, counted size, null metadata) for 5 entry points x 5 sizes x chunkings; read back through metadata*, index::find*, list_sync.",
         "Trusted: Python json/Decimal for exact number comparison.",
         "DESIGN.md 4/C11", "seqx")
+    add("C14", "model_checking",
+        "explicit-state breadth-first model checking of on-disk states with abandonment episodes as actions; in-flight case with both completion orders",
+        "BFS over ordinary writes/removals plus abandonment episodes (sync/async, keyed/by address, bytes equal to an existing value or fresh, declared size none/correct/wrong, dropped after creation/1 chunk/2 chunks/flush/close, commits rejected by size/integrity/declared > 1 MiB); after every transition lookups, listing, tmp/ and the content file set must equal the model. In-flight: poll_write once then drop before/after the blocking task completes (async-std, tokio).",
+        "The two in-flight orders are forced by a delay, not by the ptrace scheduler. Data of a rejected commit may stay retrievable by address.",
+        "DESIGN.md 4/C14", "seqx")
+    add("C19", "exploration",
+        "bounded-exhaustive input and history enumeration through the real API (link_to builds)",
+        "Target size x path form (absolute, relative, ../, via symlinked directory) x entry point (link_to*, link_to_hash*, WriteOpts::link_to* with correct/wrong size and integrity, stepwise linker with partial reads) x post-link event (modify, truncate, extend, remove, replace) x pre-existing regular content x flavour: reads return the bytes as of link time or fail, the content path is a symlink (no copy), the target's inode/mtime/bytes never change, wrong declarations are rejected and map nothing.",
+        "Trusted: stat() of the target for 'never modified'.",
+        "DESIGN.md 4/C19", "seqx")
